@@ -14,6 +14,7 @@ import (
 // "cannot decide" rather than guessing.
 type miniEval struct {
 	leaf  func(ssa.Value) (int64, bool)
+	bleaf func(ssa.Value) (bool, bool) // optional: boolean leaves (a flag, a comma-ok, a predicate call)
 	depth int
 }
 
@@ -65,6 +66,11 @@ func (e *miniEval) Bool(v ssa.Value) (bool, bool) {
 	defer func() { e.depth-- }()
 	if k, ok := constBool(v); ok {
 		return k, true
+	}
+	if e.bleaf != nil {
+		if k, ok := e.bleaf(v); ok {
+			return k, true
+		}
 	}
 	switch x := v.(type) {
 	case *ssa.UnOp:
